@@ -121,7 +121,7 @@ def main():
         "setup_cmd": "./check --build",
         "hooks": {
             "guard": "cargo feature verif-hooks",
-            "enable": "the harness depends on momtrop { path = \"/repo\", features = [\"log\", \"verif-hooks\"] }; no RUSTFLAGS",
+            "enable": "the harness crate mtmc depends on momtrop { path = \"/repo\", features = [\"log\", \"verif-hooks\"] }; no RUSTFLAGS. A second small crate (harness/nolog) builds momtrop with NO feature at all (guard off) and is compared bit-for-bit with the hooks-on build by the C17 check",
             "baseline_off_cmd": "cd /repo && cargo test --workspace --no-fail-fast --offline",
             "source_commits": ["5bdd1de"],
             "add_only": True,
